@@ -82,7 +82,7 @@ Judge(e) ==
       sameDs == IF sameOk \/ ~e.parse2_ok THEN {} ELSE ExplainM(e.proj2, p1)
       \* a different text is explained when a different re-read schema is, or by the duplicated decimal keys
       \* (the re-read picks the defaulted "scale": 0 up as one more attribute and writes it twice)
-      textKnown == e.parse2_ok /\ ~e.text3_same /\ (sameDs # {} \/ dupKnown)
+      textKnown == e.parse2_ok /\ ~e.text3_same /\ (sameDs # {} \/ (dupKnown /\ DefaultedScaleDup(e.tree2)))
       \* (d) container header
       hm == IF e.hdr_scan_ok THEN Meaning(e.hdr_tree) ELSE [m |-> "invalid"]
       hdrOpenKnown == ~e.hdr_ok /\ BreaksNames(p1)
